@@ -77,9 +77,57 @@ class Receive(Explorer):
                 if k not in st.data["done"]:
                     st.data["done"].append(k)
 
+    def _helper_verdicts(self, c, h, st: St) -> List[St]:
+        """States after running helper h for call c, with the truth of the call recorded where it is decided."""
+        nxt = []
+        self.stack.append(h)
+        try:
+            for kind, node, s2 in self.explore(h.node.body, st):
+                if kind == "raise":
+                    continue
+                v = node.value if kind == "return" and node is not None else None
+                inner_tr = [x for x in calls(v, into_defs=False) if call_attr(x) == "track_reliable"] if v is not None else []
+                if inner_tr:
+                    self._effects(v, s2)
+                    for res in (True, False):
+                        s3 = s2.copy()
+                        if not res:
+                            s3.data["dup"] = True
+                        if isinstance(v, ast.Call) and v is inner_tr[0]:
+                            assume(c, res, s3)
+                        elif assume(inner_tr[0], res, s3):
+                            t_ = tv(v, s3)
+                            if t_ is not None:
+                                assume(c, t_, s3)
+                        nxt.append(s3)
+                    continue
+                t_ = False if v is None else tv(v, s2)
+                if t_ is None:
+                    for res in (True, False):
+                        s3 = s2.copy()
+                        assume(c, res, s3)
+                        nxt.append(s3)
+                else:
+                    assume(c, t_, s2)
+                    nxt.append(s2)
+        finally:
+            self.stack.pop()
+        return nxt
+
     def branch(self, test, st: St):
         tr = [c for c in calls(test, into_defs=False) if call_attr(c) == "track_reliable"]
         self._effects(test, st)
+        hs = self._helpers(test)
+        if hs and not tr:
+            # a helper of the protocol class decides the test: explore its body; each returned verdict becomes the
+            # known value of the call (a returned track_reliable() forks into new / already seen)
+            states = [st]
+            for c, h in hs:
+                states = [s3 for cur in states for s3 in self._helper_verdicts(c, h, cur)]
+            out = []
+            for cur in states:
+                out.extend(Explorer.branch(self, test, cur))
+            return out
         if not tr:
             return super().branch(test, st)
         out = []
@@ -106,6 +154,16 @@ class Receive(Explorer):
         self._effects(s, st)
         self.simple(s, st)
         hs = self._helpers(s)
+        if hs and isinstance(s, ast.Assign) and len(s.targets) == 1 and isinstance(s.targets[0], ast.Name) \
+                and len(hs) == 1 and s.value is hs[0][0]:
+            key = ast.Name(id=s.targets[0].id, ctx=ast.Load())
+            outs_ = []
+            for s3 in self._helper_verdicts(hs[0][0], hs[0][1], st):
+                t_ = tv(hs[0][0], s3)
+                if t_ is not None:
+                    assume(key, t_, s3)
+                outs_.append(("fall", None, s3))
+            return outs_
         if hs:
             states = [st]
             outs_ = []
@@ -174,41 +232,77 @@ def _reliable_on(st: St, msg: str) -> Optional[bool]:
 def r1(ctx, dr, ex, outs, msg):
     ctx.rule("C19.R1", "ack unconditional: every decoded reliable packet is acknowledged with its own id whether or "
                        "not it was seen before")
-    sa = find_calls(dr.node, "send_acks", into_defs=False)
-    ctx.ob("C19.R1", "datagram_received acknowledges reliable packets (send_acks)", len(sa) >= 1, dr.where,
+    from .c05 import method_params, resolve_method_call
+    repo = ctx.repo
+    rvar0 = lookup_var(dr, "region_by_circuit_addr")
+    # (function, call, message name there, region name there, call site in datagram_received or None)
+    sa_sites = [(dr, c, msg, rvar0, None) for c in find_calls(dr.node, "send_acks", into_defs=False)]
+    for hc in calls(dr.node, into_defs=False):
+        h = resolve_method_call(repo, dr, hc)
+        if h is None or h == dr:
+            continue
+        params = method_params(h)
+        amap = {ap(a_): params[i] for i, a_ in enumerate(hc.args) if i < len(params) and ap(a_)}
+        amap.update({ap(k.value): k.arg for k in hc.keywords if k.arg and ap(k.value)})
+        for c in find_calls(h.node, "send_acks", into_defs=False):
+            sa_sites.append((h, c, amap.get(msg), amap.get(rvar0), hc))
+    ctx.ob("C19.R1", "datagram_received acknowledges reliable packets (send_acks)", len(sa_sites) >= 1, dr.where,
            "no acknowledgement is ever sent: the peer retransmits every reliable packet until it gives up")
     verdict_names = {ap(st.target) for st in stores(dr.node, into_defs=False) if st.kind == "assign"
                      and isinstance(st.value, ast.Call) and call_attr(st.value) == "track_reliable"}
-    for c in sa:
+    for fn_, c, msg_, rvar_, via in sa_sites:
         ids = arg_of(c, 0, "to_ack")
         if isinstance(ids, ast.Name):
-            ids = single_assign(dr.node, ids.id) or ids
-        okid = isinstance(ids, (ast.Tuple, ast.List)) and len(ids.elts) == 1 and ap(ids.elts[0]) == f"{msg}.packet_id"
-        ctx.ob("C19.R1", "datagram_received: the ack carries exactly the received packet's id", okid, ctx.w(dr, c),
+            ids = single_assign(fn_.node, ids.id) or ids
+        okid = isinstance(ids, (ast.Tuple, ast.List)) and len(ids.elts) == 1 and msg_ is not None and \
+            ap(ids.elts[0]) == f"{msg_}.packet_id"
+        ctx.ob("C19.R1", "datagram_received: the ack carries exactly the received packet's id", okid, ctx.w(fn_, c),
                f"acked ids are `{norm(ids) if ids is not None else None}`")
         d = arg_of(c, 1, "direction")
         ctx.ob("C19.R1", "datagram_received: the ack goes out to the peer (Direction.OUT)",
-               d is None or (ap(d) or "").endswith("Direction.OUT"), ctx.w(dr, c), f"direction {norm(d) if d is not None else None}")
-        recv = resolve_path(dr.node, c.func.value) if isinstance(c.func, ast.Attribute) else None
-        ctx.ob("C19.R1", "datagram_received: the ack is sent on the circuit the packet arrived on", recv == f"{lookup_var(dr, 'region_by_circuit_addr')}.circuit",
-               ctx.w(dr, c), f"receiver {recv}")
+               d is None or (ap(d) or "").endswith("Direction.OUT"), ctx.w(fn_, c), f"direction {norm(d) if d is not None else None}")
+        recv = resolve_path(fn_.node, c.func.value) if isinstance(c.func, ast.Attribute) else None
+        ctx.ob("C19.R1", "datagram_received: the ack is sent on the circuit the packet arrived on",
+               rvar_ is not None and recv == f"{rvar_}.circuit", ctx.w(fn_, c), f"receiver {recv}")
         extra = []
-        for e, pol in facts(c, dr.node):
-            p = ap(e)
-            if p == f"{msg}.reliable" and pol:
-                continue
-            if p == lookup_var(dr, "region_by_circuit_addr") and pol:
-                continue
-            if isinstance(e, ast.Call) and call_attr(e) == "validate_udp_msg" and pol:
-                continue
-            nt = is_none_test(e)
-            if nt and nt[0] == lookup_var(dr, "region_by_circuit_addr") and ((not nt[1] and pol) or (nt[1] and not pol)):
-                continue
-            extra.append(("" if pol else "not ") + norm(e))
+        levels = [(c, fn_, msg_, rvar_)] + ([(via, dr, msg, rvar0)] if via is not None else [])
+        for nd, f_, m_, r_ in levels:
+            for e, pol in facts(nd, f_.node):
+                p = ap(e)
+                if p == f"{m_}.reliable" and pol:
+                    continue
+                if p == r_ and pol:
+                    continue
+                if isinstance(e, ast.Call) and call_attr(e) == "validate_udp_msg" and pol:
+                    continue
+                nt = is_none_test(e)
+                if nt and nt[0] == r_ and ((not nt[1] and pol) or (nt[1] and not pol)):
+                    continue
+                extra.append(("" if pol else "not ") + norm(e))
         dep_verdict = [x for x in extra if any(v and v in x for v in verdict_names) or "track_reliable" in x]
-        ctx.ob("C19.R1", "datagram_received: the ack depends on nothing but message.reliable", not extra, ctx.w(dr, c),
+        ctx.ob("C19.R1", "datagram_received: the ack depends on nothing but message.reliable", not extra, ctx.w(fn_, c),
                f"additionally depends on {extra}" + (" - a retransmission whose first ack was lost is never acknowledged"
                                                      if dep_verdict else ""))
+    # the circuit the ack goes out on is found by address: the lookup must not answer another address's region
+    from .c06 import check_region_lookup
+    check_region_lookup(ctx, "C19.R1")
+    # the ack must not depend on the body parsing: the client's deserializer defers body parsing, so a datagram
+    # with a good header is acked (and deduped) before anything reads its body
+    ev_ = ConstEval(repo, dr.module)
+    scls = [c for c in repo.classes.get("ClientSettings", []) if c.module.rel == CLIENT]
+    for ci in scls or [repo.cls("Settings", "hippolyzer/lib/base/settings.py")]:
+        node = repo.class_attr(ci, "ENABLE_DEFERRED_PACKET_PARSING")
+        val = None
+        if isinstance(node, ast.Call) and call_attr(node) == "SettingDescriptor" and node.args:
+            val = ConstEval(repo, ci.module).ev(node.args[0])
+        elif node is not None:
+            val = ConstEval(repo, ci.module).ev(node)
+        if not isinstance(val, bool):
+            raise AnalysisError(f"{ci.name}.ENABLE_DEFERRED_PACKET_PARSING default is not a decidable constant")
+        ctx.ob("C19.R1", f"{ci.name}: the client endpoint defers body parsing (header-only work in front of the ack)", val is True,
+               f"{ci.module.rel}:{getattr(node, 'lineno', 0)}",
+               "ENABLE_DEFERRED_PACKET_PARSING defaults to False for the client: deserialize() parses the whole body before "
+               "collect_acks / send_acks / track_reliable run, so a reliable packet whose body does not parse is never acked")
     sa_def = ctx.repo.fn("Circuit.send_acks", BCIRC)
     dflt = None
     a = sa_def.node.args
@@ -723,8 +817,8 @@ def r7(ctx):
 
 def run(ctx):
     dr, ex, outs = receive_paths(ctx)
-    msgs = [ap(st.target) for st in stores(dr.node, into_defs=False) if st.kind == "assign" and isinstance(st.value, ast.Call)
-            and call_attr(st.value) == "deserialize"]
+    from .c05 import parsed_message_vars
+    msgs = sorted(parsed_message_vars(ctx.repo, dr))
     ctx.require(len(msgs) == 1 and msgs[0], "datagram_received: expected one `message = ...deserialize(data)`")
     msg = msgs[0]
     r1(ctx, dr, ex, outs, msg)
